@@ -11,6 +11,7 @@ import (
 	"sort"
 	"strings"
 	"syscall"
+	"time"
 
 	"github.com/charmbracelet/log"
 	"github.com/flamego/flamego"
@@ -236,23 +237,31 @@ func (h *SimH) run(c flamego.Context, rw http.ResponseWriter, r *http.Request, t
 }
 
 func (h *SimH) do(q *Req, c flamego.Context, rw http.ResponseWriter, r *http.Request, a Act) {
+	// attempt: the handler writes to the response proper (not to a substitute writer some
+	// middleware mapped for later handlers)
+	attempt := func() {
+		if q.substituted && (c == nil || rw != http.ResponseWriter(c.ResponseWriter())) {
+			return
+		}
+		q.ev(EvAttempt, h.HID, int(a.Op), "")
+	}
 	switch a.Op {
 	case OpYield:
 	case OpWriteHeader:
 		if rw != nil {
 			if a.A >= 100 && a.A <= 999 {
-				q.ev(EvAttempt, h.HID, int(a.Op), "")
+				attempt()
 			}
 			rw.WriteHeader(int(a.A))
 		}
 	case OpWrite:
 		if rw != nil {
-			q.ev(EvAttempt, h.HID, int(a.Op), "")
+			attempt()
 			_, _ = rw.Write(h.body(q, int(a.A)))
 		}
 	case OpFlush:
 		if f, ok := rw.(http.Flusher); ok {
-			q.ev(EvAttempt, h.HID, int(a.Op), "")
+			attempt()
 			f.Flush()
 		}
 	case OpMapIface:
@@ -295,6 +304,24 @@ func (h *SimH) do(q *Req, c flamego.Context, rw http.ResponseWriter, r *http.Req
 				}
 				q.Note("apply:tok=" + string(dst.T) + ",req=" + rq)
 			}
+		}
+	case OpExpireCtx:
+		if c != nil && q.Local.CancelledAt < 0 {
+			ctx, cancel := gocontext.WithDeadline(gocontext.Background(), time.Unix(1, 0))
+			c.Request().Request = c.Request().WithContext(ctx)
+			q.replaceCancel(cancel)
+			q.ev(EvCancel, h.HID, 1, "deadline")
+			q.Local.CancelledAt = q.Local.CIdx
+			q.Local.CancelAt = -1
+		}
+	case OpMapOwnWriter:
+		if c != nil && !q.substituted && h.w.allowSubstitute {
+			sp := NewSpy(&Req{Name: q.Name + "-substitute"})
+			sp.refuseTo = q // a status the substitute refuses is still a panic in this request
+			sub := flamego.NewResponseWriter(c.Request().Method, sp)
+			c.MapTo(sub, (*http.ResponseWriter)(nil))
+			q.substituted = true
+			q.Note("writer-substituted")
 		}
 	case OpSetCL:
 		if rw != nil {
@@ -403,7 +430,7 @@ func (h *SimH) do(q *Req, c flamego.Context, rw http.ResponseWriter, r *http.Req
 		raise(int(a.A), PanicToken(q.Name, h.Pos), c)
 	case OpEcho:
 		if rw != nil {
-			q.ev(EvAttempt, h.HID, int(a.Op), "")
+			attempt()
 			_, _ = rw.Write([]byte(h.echo(q, c, r)))
 		}
 	case OpMark:
